@@ -70,6 +70,7 @@ type interpreter struct {
 	evalMemo     map[int]*big.Int
 	obs          []string
 	allocBudget  int64 // -1 = off
+	stamp        int
 
 	sched
 }
